@@ -51,6 +51,7 @@ type pcView struct {
 type unsupported struct{ msg string }
 
 type Verifier struct {
+	pendingFree []freeBinding // captured variables of a closure about to be called under its contract
 	e                   *Engine
 	fn                  *ssa.Function
 	fc                  *FuncContract
@@ -602,6 +603,9 @@ func (v *Verifier) execFrom(st *State, b *ssa.BasicBlock, idx int) {
 			}
 			v.doCall(st, &ins.Call, ins, func(st2 *State, res Value) {
 				st2.top().regs[cins] = res
+				if st2.top().depth == 0 {
+					v.assumeAfterCall(st2, cins, res)
+				}
 				v.execFrom(st2, b, ii+1)
 			})
 			return
@@ -1010,12 +1014,24 @@ func (v *Verifier) binop(st *State, op token.Token, x, y Value, rt types.Type, p
 	return r
 }
 
-func (e *Engine) strLt(a, b *Term) *Term { return e.sy.App("str_lt", SBool, a, b) }
+// strLt: the lexicographic order on strings is a countable total order, so it embeds into the reals;
+// str_rank is such an (uninterpreted, injective) embedding. Irreflexivity, transitivity and totality
+// then come from real arithmetic instead of quantified axioms (which made e-matching explode).
+func (e *Engine) strLt(a, b *Term) *Term {
+	return mk("<", SBool, e.sy.App("str_rank", SReal, a), e.sy.App("str_rank", SReal, b))
+}
 
 // valuesEqual: Go == on values of static type t.
 func (v *Verifier) valuesEqual(st *State, x, y Value, t types.Type) *Term {
 	if x.cell != nil || y.cell != nil {
 		v.fail("comparison of cell pointers")
+	}
+	if _, isTP := t.(*types.TypeParam); isTP && len(x.L) != 3 {
+		var cs []*Term
+		for i := range x.L {
+			cs = append(cs, Eq(x.L[i], y.L[i]))
+		}
+		return And(cs...)
 	}
 	switch t.Underlying().(type) {
 	case *types.Interface:
@@ -1126,7 +1142,7 @@ func (v *Verifier) doIndexAddr(st *State, ia *ssa.IndexAddr) {
 		// in-range index implies non-nil base
 		st.assume(Neq(x.L[0], IntLit(0)))
 		st.nonnil[x.L[0].String()] = true
-		off := Add(x.L[1], Mul(idx, IntLit(int64(es))))
+		off := Add(x.L[1], strideOf(idx, int64(es)))
 		v.setReg(st, ia, Value{T: ia.Type(), L: []*Term{x.L[0], off}})
 	case *types.Pointer:
 		at := xt.Elem().Underlying().(*types.Array)
@@ -1142,7 +1158,7 @@ func (v *Verifier) doIndexAddr(st *State, ia *ssa.IndexAddr) {
 			return
 		}
 		v.checkNonNil(st, x.L[0], "index "+describe(ia), ia.Pos())
-		off := Add(x.L[1], Mul(idx, IntLit(int64(es))))
+		off := Add(x.L[1], strideOf(idx, int64(es)))
 		v.setReg(st, ia, Value{T: ia.Type(), L: []*Term{x.L[0], off}})
 	default:
 		v.fail("IndexAddr on %v", ia.X.Type())
@@ -1157,7 +1173,23 @@ func (v *Verifier) doIndex(st *State, ix *ssa.Index) {
 		es := v.e.lay.Size(xt.Elem())
 		iv, ok := idx.IsInt()
 		if !ok {
-			v.fail("symbolic index into array value")
+			// small array value indexed symbolically: bounds obligation, then a case split per element
+			if xt.Len() > 16 {
+				v.fail("symbolic index into a large array value")
+			}
+			inb := And(Ge(idx, IntLit(0)), Lt(idx, IntLit(xt.Len())))
+			v.oblige(st, "index", describe(ix), inb, ix.Pos(), nil)
+			st.assume(inb)
+			res := x.sub(int(xt.Len()-1)*es, es, xt.Elem())
+			out := Value{T: xt.Elem(), L: append([]*Term(nil), res.L...)}
+			for j := xt.Len() - 2; j >= 0; j-- {
+				el := x.sub(int(j)*es, es, xt.Elem())
+				for k := range out.L {
+					out.L[k] = Ite(Eq(idx, IntLit(j)), el.L[k], out.L[k])
+				}
+			}
+			v.setReg(st, ix, out)
+			return
 		}
 		v.setReg(st, ix, x.sub(int(iv.Int64())*es, es, xt.Elem()))
 	case *types.Basic: // string
@@ -1199,7 +1231,7 @@ func (v *Verifier) doSlice(st *State, s *ssa.Slice) {
 		goal := And(Le(IntLit(0), lo), Le(lo, hi), Le(hi, max), Le(max, capT))
 		v.oblige(st, "slice", describe(s.X)+"["+descOpt(s.Low)+":"+descOpt(s.High)+"]", goal, s.Pos(), nil)
 		st.assume(goal)
-		res := Value{T: s.Type(), L: []*Term{x.L[0], Add(x.L[1], Mul(lo, IntLit(int64(es)))), Sub(hi, lo), Sub(max, lo)}}
+		res := Value{T: s.Type(), L: []*Term{x.L[0], Add(x.L[1], strideOf(lo, int64(es))), Sub(hi, lo), Sub(max, lo)}}
 		v.setReg(st, s, res)
 	case *types.Basic: // string
 		n := v.e.strLen(x.L[0])
@@ -1229,7 +1261,7 @@ func (v *Verifier) doSlice(st *State, s *ssa.Slice) {
 			v.fail("slicing a cell array")
 		}
 		v.checkNonNil(st, x.L[0], "slice "+describe(s.X), s.Pos())
-		res := Value{T: s.Type(), L: []*Term{x.L[0], Add(x.L[1], Mul(lo, IntLit(int64(es)))), Sub(hi, lo), Sub(max, lo)}}
+		res := Value{T: s.Type(), L: []*Term{x.L[0], Add(x.L[1], strideOf(lo, int64(es))), Sub(hi, lo), Sub(max, lo)}}
 		v.setReg(st, s, res)
 	default:
 		v.fail("Slice on %v", s.X.Type())
@@ -1570,16 +1602,67 @@ func (v *Verifier) checkAts(st *State, c *ssa.Call) {
 func (v *Verifier) escapeValue(st *State, val Value) {
 	st.escape(val)
 	if val.clo != nil {
-		for _, b := range val.clo.bindings {
-			st.escape(b)
-		}
+		v.escapeClosure(st, val.clo, 0)
 	} else if len(val.L) == 1 {
 		if c, ok := st.clos[val.L[0].String()]; ok {
-			for _, b := range c.bindings {
-				st.escape(b)
-			}
+			v.escapeClosure(st, c, 0)
 		}
 	}
+}
+
+// escapeClosure: the variables a closure captures become reachable from outside. A captured
+// variable that the closure (and the closures nested in it) only ever loads keeps its cell private
+// - nobody else can write it - and only the value it holds escapes.
+func (v *Verifier) escapeClosure(st *State, c *closureVal, depth int) {
+	for i, b := range c.bindings {
+		if depth < 4 && i < len(c.fn.FreeVars) && b.cell == nil && len(b.L) == 2 && freeVarReadOnly(c.fn.FreeVars[i], 0) {
+			if pt, ok := c.fn.FreeVars[i].Type().Underlying().(*types.Pointer); ok {
+				if _, priv := st.private[b.L[0].String()]; priv {
+					inner := st.loadAt(b.L[0], b.L[1], pt.Elem())
+					st.escape(inner)
+					if len(inner.L) == 1 {
+						if ic, ok := st.clos[inner.L[0].String()]; ok && ic != c {
+							v.escapeClosure(st, ic, depth+1)
+						}
+					}
+					continue
+				}
+			}
+		}
+		st.escape(b)
+	}
+}
+
+// freeVarReadOnly: every use of the captured variable is a load (or the capture by a nested
+// closure that itself only loads it).
+func freeVarReadOnly(fv *ssa.FreeVar, depth int) bool {
+	if depth > 4 || fv.Referrers() == nil {
+		return false
+	}
+	for _, r := range *fv.Referrers() {
+		switch r := r.(type) {
+		case *ssa.UnOp:
+			if r.Op != token.MUL {
+				return false
+			}
+		case *ssa.DebugRef:
+		case *ssa.MakeClosure:
+			fn, ok := r.Fn.(*ssa.Function)
+			if !ok {
+				return false
+			}
+			for j, bv := range r.Bindings {
+				if bv == ssa.Value(fv) {
+					if j >= len(fn.FreeVars) || !freeVarReadOnly(fn.FreeVars[j], depth+1) {
+						return false
+					}
+				}
+			}
+		default:
+			return false
+		}
+	}
+	return true
 }
 
 // valueInvariants asserts (or assumes) the declared invariants of a value type and of the struct
@@ -1651,4 +1734,38 @@ func (v *Verifier) feasible(st *State, cond *Term) bool {
 		return false
 	}
 	return true
+}
+
+// assumeAfterCall: "at <callee> #n / assume_result" clauses state assumptions about what a call
+// through an uncontracted function value returns (listed as assumptions in the evidence).
+func (v *Verifier) assumeAfterCall(st *State, c *ssa.Call, res Value) {
+	if v.fc == nil || len(v.fc.Ats) == 0 {
+		return
+	}
+	name, _ := v.callOrdinal(c)
+	for _, ab := range v.fc.Ats {
+		if len(ab.Assumes) == 0 || !strings.Contains(name, ab.Callee) {
+			continue
+		}
+		n := 0
+		match := false
+		for _, oc := range v.allCalls {
+			if strings.Contains(v.callNames[oc], ab.Callee) {
+				n++
+				if oc == c {
+					match = n == ab.Ordinal
+					break
+				}
+			}
+		}
+		if !match {
+			continue
+		}
+		ab.seen = true
+		env := v.loopEnv(st)
+		v.bindResults(env, c.Call.Signature(), nil, res)
+		for _, cl := range ab.Assumes {
+			st.assumeTagged(v.evalBoolIn(st, env, cl), cl.Label)
+		}
+	}
 }
